@@ -301,14 +301,19 @@ def capacity(case, resname, d):
     return calast.cap(None if ast == 'missing' else ast, d)
 
 
+def graph_fields(t):
+    from vf.graph import public_fields, CUSTOM_NAMES
+    return public_fields(t, CUSTOM_NAMES)
+
+
 def wbs_snapshot(w, extra=()):
     """public-getter snapshot of a WBS (and extra external tasks) for purity checks"""
     out = []
     for t in list(w.tasks):
         out.append((t.id, t.parent.id if t.parent else None, tuple(c.id for c in t.children),
                     tuple(p.id for p in t.predecessors), tuple(s.id for s in t.successors),
-                    tuple(sorted((k, repr(v)) for k, v in t.to_dict().items())), id(t.wbs)))
+                    graph_fields(t), id(t.wbs)))
     for x in extra:
         # link lists of outside tasks are shared with the clone by design (C10), so only their own fields are compared
-        out.append(('ext', x.id, tuple(sorted((k, repr(v)) for k, v in x.to_dict().items()))))
+        out.append(('ext', x.id, tuple((k, v) for k, v in graph_fields(x) if k not in ('estimate', 'spent'))))
     return out
